@@ -573,9 +573,9 @@ fn exec_inner(op: &str, a: &Value, st: &mut State) -> Value {
             let mut vfs = Vec::new();
             for ent in getv(a, "vfs").as_array().unwrap() {
                 let p = String::from_utf8(to_bytes(&ent[0])).unwrap();
-                let c = match &ent[1] {
-                    Value::String(s) if s == "unreadable" => None,
-                    other => Some(to_bytes(other)),
+                let c = match ent[1].as_array() {
+                    Some(arr) if arr.len() == 1 && arr[0].as_i64() == Some(-1) => None,   // [-1] = exists but cannot be read
+                    _ => Some(to_bytes(&ent[1])),
                 };
                 vfs.push((p, c));
             }
